@@ -94,9 +94,18 @@ func (fr *frame) call(c *ssa.CallCommon, ins ssa.Instruction, desc string) Val {
 		fr.mentionHookNamed(c.Args[0], "StructDesc", args[0], ins.Pos())
 	}
 	if callee == nil {
+		root := fr
+		for root.parent != nil {
+			root = root.parent
+		}
+		if root.con != nil && len(root.con.clauses("pure_funcvalues")) > 0 {
+			vc.note("calls through function values assumed to have no memory effect in " + root.con.FuncName + " (trusted)")
+			return fr.unknownCall("funcvalue", resT, false)
+		}
 		vc.note("call through function value treated as unknown: " + fr.fn.String())
 		return fr.unknownCall("funcvalue", resT, true)
 	}
+	fr.atCall(callee, ins)
 	if con := vc.P.contractFor(callee); con != nil && !(fr.top && fr.depth == 0 && callee == fr.fn && false) {
 		return fr.applyContract(con, callee, callee.Signature, args, resT, pos)
 	}
@@ -1253,4 +1262,20 @@ func (fr *frame) rangeIndexBound(li *loopInfo, phi *ssa.Phi, gh string, signed b
 		lt = "bvslt"
 	}
 	fr.vc.assume(implies(gh, or(eq(fr.vals[phi].S, init.S), app(lt, fr.vals[phi].S, bound.S))))
+}
+
+// atCall: `at_call CALLEE expr` clauses of the function under contract are
+// obligations at every call of CALLEE, over the caller's variables.
+func (fr *frame) atCall(callee *ssa.Function, ins ssa.Instruction) {
+	if !fr.top || fr.con == nil {
+		return
+	}
+	for _, cl := range fr.con.clauses("at_call") {
+		if cl.Name != callee.Name() && cl.Name != callee.String() {
+			continue
+		}
+		env := fr.baseEnv()
+		vc := fr.vc
+		vc.oblige("at-call", fmt.Sprintf("%s/at-call[%s: %s#%d]", vc.Name, cl.Name, clauseLabel(cl), fr.occ("atcall:"+cl.Name+clauseLabel(cl))), fr.guard, env.evalBool(cl.Expr), fr.pos(ins.Pos()))
+	}
 }
